@@ -20,7 +20,8 @@ from .speceval import SpecEval
 from .engine import Engine, Obl
 
 Z3_TIMEOUT_MS = 6000
-LONG_Z3_MS = 15000
+LONG_Z3_MS = 12000
+UNDECIDED_BUDGET_S = 45.0     # per function: beyond it, further undecided obligations get the short budget
 CVC5_TIMEOUT_S = 10
 
 
@@ -96,6 +97,15 @@ def check(pc, goal, timeout_ms=None, quick=False):
     if r == z3.sat:
         return VIOLATED, s.model(), "z3", dt, "sat", None
     reason = s.reason_unknown()
+    # pure E-matching (no model-based instantiation): much faster on VCs with many irrelevant
+    # quantified hypotheses; only its `unsat` is used
+    s1 = z3.Solver()
+    s1.set("smt.mbqi", False)
+    s1.set("timeout", first_ms)
+    s1.add(*pc)
+    s1.add(z3.Not(goal))
+    if s1.check() == z3.unsat:
+        return DISCHARGED, None, "z3", time.time() - t0, "unsat (e-matching only)", None
     if quick:
         return UNDECIDED, None, "z3", time.time() - t0, "z3 unknown (%s); short budget" % reason, cand
     # second opinion first (cvc5 decides many sequence + quantifier queries that z3 times out on)
@@ -378,16 +388,18 @@ def verify_function(key, prop_prefix="", replayer=None, only_labels=None, engine
         if only_labels and not (o.label in only_labels if not callable(only_labels) else only_labels(o.label)):
             continue
         groups.setdefault((o.label, o.klass), []).append(o)
+    undecided_time = [0.0]
     for (label, klass), obs in groups.items():
         agg_status, agg_time, backends, outs = DISCHARGED, 0.0, set(), []
         witness, wit_obl, wmodel = None, None, None
         cand_model, cand_obl = None, None
-        slow_left = 2          # full-budget attempts per clause; further undecided paths get a short budget
+        slow_left = 2 if undecided_time[0] < UNDECIDED_BUDGET_S else 0   # full-budget attempts per clause
         for o in obs:
             status, model, backend, dt, txt, cand = check(o.pc, o.goal, timeout_ms=None if slow_left > 0 else 1500,
                                                           quick=slow_left <= 0)
             if status == UNDECIDED:
                 slow_left -= 1
+                undecided_time[0] += dt
             agg_time += dt
             backends.add(backend)
             if status == VIOLATED:
